@@ -399,6 +399,24 @@ def shrink(lines, workdir, pred, budget=150):
                     if pred(cand):
                         cur = cand
                         break
+    # trim the last payload to the shortest prefix that still shows the difference (binary search:
+    # once the offending sequence is included the difference normally persists), so that the
+    # payload ENDS with the operation that causes it
+    idx = [i for i, l in enumerate(cur) if l.split() and l.split()[0] in ("P", "W") and len(l.split()) > 1]
+    if idx:
+        i = idx[-1]
+        op, hx = cur[i].split()[0], cur[i].split()[1]
+        nbytes = len(hx) // 2
+        lo, hi = 1, nbytes
+        while lo < hi and n < budget + 12:
+            mid = (lo + hi) // 2
+            n += 1
+            if pred(cur[:i] + ["%s %s" % (op, hx[:2 * mid])] + cur[i + 1:]):
+                hi = mid
+            else:
+                lo = mid + 1
+        if lo < nbytes and pred(cur[:i] + ["%s %s" % (op, hx[:2 * lo])] + cur[i + 1:]):
+            cur = cur[:i] + ["%s %s" % (op, hx[:2 * lo])] + cur[i + 1:]
     return cur
 
 
